@@ -276,3 +276,29 @@ Definition check_C20 (alg : N) (sh : input_shape) (p0 : list N) (obs : observed)
     | _ => false
     end
   else true.
+
+(* ------------------------------------------------ compact encodings (large calls)
+   The harness writes a call on thousands of elements as run-length encoded
+   lists plus the positions at which the caller's array changed; Run/RunC20.v
+   [big20] rebuilds the plain lists with the two functions below and judges
+   them exactly like a small call. *)
+
+(* [(x1, n1); (x2, n2); ...]  =  n1 copies of x1, then n2 copies of x2, ... *)
+Definition of_runs {A} (rs : list (A * N)) : list A :=
+  flat_map (fun r => repeat (fst r) (N.to_nat (snd r))) rs.
+
+(* [l] with the value at every listed position replaced: [ds] = (position, new
+   value), positions ascending, counted from [i] at the head of [l].  An entry
+   that is never reached (position out of range or out of order) is APPENDED,
+   so that it can never be dropped silently: the result then differs from any
+   array of the original length. *)
+Fixpoint patch_ids (l : list N) (i : N) (ds : list (N * N)) : list N :=
+  match l with
+  | [] => map snd ds
+  | x :: t =>
+    match ds with
+    | [] => x :: patch_ids t (i + 1) []
+    | (j, v) :: ds' =>
+      if (i =? j)%N then v :: patch_ids t (i + 1) ds' else x :: patch_ids t (i + 1) ds
+    end
+  end.
